@@ -145,3 +145,50 @@ def replay_list(defi, rep, splits, opt_list, opt_elem, maxd, want, version=1, en
         return False, "agrees"
     finally:
         shutil.rmtree(d, ignore_errors=True)
+
+
+def build_map_then_int(path, a_values, null_count_a=None, rows_map=None):
+    """one row group: a MAP<int64,int64> column `m` (one entry {k: 10*k} per row, row k) followed by an OPTIONAL INT64
+    column `a` with the given values (None = NULL); v1 pages, PLAIN; chunk statistics carry truthful null counts
+    (m.key / m.value: 0, a: as given)"""
+    from fastparquet import parquet_thrift as pt
+    n = len(a_values)
+    data = bytearray(b"PAR1")
+    chunks = []
+
+    def add_chunk(pathv, body_levels, values, num_values, nulls):
+        start = len(data)
+        vals = b"".join(struct.pack("<q", v) for v in values)
+        body = body_levels + vals
+        ph = pt.PageHeader(type=0, uncompressed_page_size=len(body), compressed_page_size=len(body),
+                           data_page_header=pt.DataPageHeader(num_values=num_values, encoding=0,
+                                                              definition_level_encoding=3,
+                                                              repetition_level_encoding=3, i32=1), i32=1)
+        blob = bytes(ph.to_bytes()) + body
+        data.extend(blob)
+        st = pt.Statistics(null_count=nulls)
+        md = pt.ColumnMetaData(type=2, encodings=[0, 3], path_in_schema=pathv, codec=0, num_values=num_values,
+                               total_uncompressed_size=len(blob), total_compressed_size=len(blob),
+                               data_page_offset=start, statistics=st)
+        chunks.append(pt.ColumnChunk(file_offset=start, meta_data=md))
+
+    keys = list(range(1, n + 1))
+    add_chunk(["m", "key_value", "key"], _levels([0] * n, 1) + _levels([2] * n, 2), keys, n, 0)
+    add_chunk(["m", "key_value", "value"], _levels([0] * n, 1) + _levels([3] * n, 2), [10 * k for k in keys], n, 0)
+    present = [v for v in a_values if v is not None]
+    add_chunk(["a"], _levels([0 if v is None else 1 for v in a_values], 1), present, n,
+              null_count_a if null_count_a is not None else n - len(present))
+    size = len(data) - 4
+    rg = pt.RowGroup(columns=chunks, total_byte_size=size, num_rows=n)
+    schema = [pt.SchemaElement(name="schema", num_children=2),
+              pt.SchemaElement(name="m", num_children=1, repetition_type=1, converted_type=1),
+              pt.SchemaElement(name="key_value", num_children=2, repetition_type=2),
+              pt.SchemaElement(name="key", type=2, repetition_type=0),
+              pt.SchemaElement(name="value", type=2, repetition_type=1),
+              pt.SchemaElement(name="a", type=2, repetition_type=1)]
+    fmd = pt.FileMetaData(version=1, schema=schema, num_rows=n, row_groups=[rg], created_by="spec-level builder",
+                          i32list=[1])
+    foot = bytes(fmd.to_bytes())
+    data += foot + struct.pack("<I", len(foot)) + b"PAR1"
+    with open(path, "wb") as f:
+        f.write(bytes(data))
